@@ -296,6 +296,9 @@ class Net:
         self.active = None
         self.results.append(rec)
         self.cur += 1
+        if st.get("busy_after_ms"):
+            # the application does something else for a while before it polls the network again
+            wn.idle(int(st["busy_after_ms"] * W.MS))
         self.not_before = wn.t + st.get("gap", self.quiet_gap)
         self.drain(nn)
 
